@@ -1,26 +1,33 @@
 """C10 — ignore directives suppress exactly what they name, nothing else.
 
 Lean: Verif/C10/{Model,Theorems}.lean (parseDirective, parseDirectives, line/file ignore
-matching, filterIgnored incl. couldHaveMatched, success, the `ignores` loop of the U1000 graph).
+matching with filepath.Match incl. classes/escapes/malformed patterns, filterIgnored incl.
+couldHaveMatched, success, the `ignores` loop of the U1000 graph) and
+Verif/C10/{Attach,AttachTheorems}.lean (go/ast.NewCommentMap as lint.ParseDirectives uses it,
+lint.ParseDirectives, report.DisplayPosition, runner.serializeDirective, and their composition
+with filterIgnored).
 
 Ties (X), all against the current /repo tree:
  (a) in-process: generated (directives, diagnostics, allowed-checks) triples through the real
      lintcmd.success/filterIgnored/parseDirectives (verif hook lintcmd/verif_c10.go), generated
      directive lists through the real unused.Graph on a synthetic package (op u1k, no hook), the
-     real lint.ParseDirectives, filepath.Match and strings.ToLower, compared with the Lean model;
+     real filepath.Match and strings.ToLower, and generated *source files* with comment groups at
+     every position and //line directives through the real lint.ParseDirectives +
+     runner.serializeDirective (op pdf; verif hook lintcmd/runner/verif_c10.go) against the
+     model fed with the syntax facts of the same parse (ops src -> att);
  (b) end-to-end metamorphic: the real `staticcheck` binary on renamed copies of a fixed two-file
-     package (corpus/C10/pkg; class Copies) with one directive inserted above a
-     statement/declaration line of each copy, with and without -show-ignored, under several
-     -checks selections; the report is compared with the prediction computed from the
-     directive-free report (by the Lean model and by the oracle).  Disagreements are re-run as a
-     package of their own before they are reported.
+     package (corpus/C10/pkg; class Copies) with one directive per copy, placed in 11 shapes
+     (apply_shape) in 6 //line variants of the files (variant_layout), with and without
+     -show-ignored, under several -checks selections; the report is compared with the prediction
+     computed from the directive-free report (by the oracle: attachment by construction, printed
+     positions by line_map; and by the Lean model fed with the parse facts of the file).
+     Disagreements are re-run as a package of their own before they are reported.
 
-Oracle: the property statement itself, evaluated in Python (`Spec`) on the real outputs,
-written independently of the Lean model (its own glob matcher, its own splitting).
+Oracle: the property statement itself, evaluated in Python (`Spec`, `pyglob`, `line_map`,
+`apply_shape`, `src_expected`) on the real outputs, written independently of the Lean model.
 DEVIATIONS only *label* a failure (which of the three defect classes repaired in /repo it
 looks like, findings.d/C10.txt); they never excuse one.
 """
-import fnmatch
 import json
 import os
 import re
@@ -29,7 +36,7 @@ from concurrent.futures import ThreadPoolExecutor
 
 import vlib
 
-MODULES = ["Verif.C10.Theorems"]
+MODULES = ["Verif.C10.Theorems", "Verif.C10.AttachTheorems"]
 THEOREMS = [
     "Verif.C10.ignored_iff",
     "Verif.C10.others_unchanged",
@@ -50,6 +57,21 @@ THEOREMS = [
     "Verif.C10.parseDirectiveText_fields",
     "Verif.C10.glob_star",
     "Verif.C10.glob_literal",
+    # comments -> directives -> suppression (AttachTheorems.lean)
+    "Verif.C10.mem_parseCM_iff",
+    "Verif.C10.directive_at_any_index",
+    "Verif.C10.parseCM_regroup",
+    "Verif.C10.parseCM_inert",
+    "Verif.C10.popStack_outermost",
+    "Verif.C10.assocOf_above",
+    "Verif.C10.assocOf_trailing",
+    "Verif.C10.assocOf_detached",
+    "Verif.C10.commentMap_above",
+    "Verif.C10.commentMap_groups",
+    "Verif.C10.display_same_line",
+    "Verif.C10.mem_pipeline_iff",
+    "Verif.C10.above_directive_suppresses",
+    "Verif.C10.suppressed_only_by_attached",
 ]
 
 MALFORMED = "malformed linter directive; missing the required reason field?"
@@ -79,8 +101,55 @@ def enc_dir(d):
 
 
 def pyglob(pat, name):
-    # patterns are restricted to letters/digits/*/? (never brackets or escapes)
-    return fnmatch.fnmatchcase(name, pat)
+    """path/filepath.Match for names without separators, from its documentation: terms `*`, `?`,
+    `[` [`^`] ranges `]` (non-empty; range items c, \\c, lo-hi with c not one of \\ - ]), `\\c`, c;
+    a malformed pattern (ErrBadPattern) matches nothing."""
+    i, n, rx = 0, len(pat), []
+    def item(i):
+        # one class character -> (char, next index) or None
+        if i >= n or pat[i] in "-]":
+            return None
+        if pat[i] == "\\":
+            i += 1
+            if i >= n:
+                return None
+        return pat[i], i + 1
+    while i < n:
+        c = pat[i]
+        if c == "*":
+            rx.append("[^/]*"); i += 1
+        elif c == "?":
+            rx.append("[^/]"); i += 1
+        elif c == "\\":
+            if i + 1 >= n:
+                return False
+            rx.append(re.escape(pat[i + 1])); i += 2
+        elif c == "[":
+            i += 1
+            neg = i < n and pat[i] == "^"
+            if neg:
+                i += 1
+            ranges = []
+            while True:
+                if i < n and pat[i] == "]" and ranges:
+                    i += 1
+                    break
+                lo = item(i)
+                if lo is None or lo[1] >= n:
+                    return False
+                lo, i = lo
+                hi = lo
+                if pat[i] == "-":
+                    h = item(i + 1)
+                    if h is None or h[1] >= n:
+                        return False
+                    hi, i = h
+                ranges.append((lo, hi))
+            alts = "|".join("[%s-%s]" % (re.escape(a), re.escape(b)) for a, b in ranges if a <= b) or "(?!)"
+            rx.append("(?!%s)." % alts if neg else "(?:%s)" % alts)
+        else:
+            rx.append(re.escape(c)); i += 1
+    return re.fullmatch("".join(rx), name, re.S) is not None
 
 
 DEVIATIONS = ("useless-u1000-order", "u1000-no-reason", "u1000-name-match")
@@ -235,6 +304,41 @@ def glob_of(rng, s):
     return s[:2] + "*" + s[-1:] + ("*" if rng.chance(1, 2) else "")
 
 
+def glob_class_of(rng, s):
+    """a pattern with a character class or an escape derived from the check id s: matching,
+    not matching, or malformed (filepath.ErrBadPattern: matches nothing); no comma, no space"""
+    i = rng.below(len(s))
+    c = s[i]
+    k = rng.below(14)
+    if k == 0:
+        return s[:i] + "[" + c + "]" + s[i + 1:]
+    if k == 1:
+        return s[:i] + "[" + c + "x]" + s[i + 1:]
+    if k == 2:
+        return s[:i] + ("[0-9]" if c.isdigit() else "[a-zA-Z]") + s[i + 1:]
+    if k == 3:
+        return s[:i] + "[^" + c + "]" + s[i + 1:]
+    if k == 4:
+        return s[:i] + "[^x]" + s[i + 1:]
+    if k == 5:
+        return s[:i] + "\\" + s[i:]
+    if k == 6:
+        return s[:i] + "[\\" + c + "]" + s[i + 1:]
+    if k == 7:
+        return s[:2] + "[0-9]*"
+    if k == 8:
+        return s[:i] + "["                       # malformed from here on
+    if k == 9:
+        return s[:i] + "[]" + s[i + 1:]
+    if k == 10:
+        return s + "\\"
+    if k == 11:
+        return s[:i] + "[" + c + "-]" + s[i + 1:]
+    if k == 12:
+        return "*[" if rng.chance(1, 2) else "[^]" + s[1:]
+    return s[:i] + "[" + c + "-" + c + "]" + ("[*]" if rng.chance(1, 2) else "") + s[i + 1:]
+
+
 def gen_name(rng, on_line, elsewhere, disabled):
     """one entry of a check list; returns (text, class)"""
     k = rng.below(16)
@@ -251,6 +355,8 @@ def gen_name(rng, on_line, elsewhere, disabled):
     if k < 13:
         return rng.choice(disabled or ["ST1003"]), "disabled"
     if k == 13:
+        if rng.chance(1, 2):
+            return glob_class_of(rng, rng.choice(on_line or elsewhere or POOL)), "glob-class"
         return glob_of(rng, rng.choice(elsewhere or POOL)), "glob-other"
     if k == 14:
         return rng.choice(["XX9999", "", "SA", "4000", "SA40000"]), "nonsense"
@@ -330,7 +436,8 @@ def gen_comment(rng):
     return "//lint:" + gen_cmd(rng) + " " + lst + " " + "".join(rng.choice(LETTERS + "  ,") for _ in range(rng.below(12)))
 
 
-U_NAMES = ["U1000", "U1000", "u1000", "U1*", "U100?", "*", "SA4000", "u10*0", "U1000x", "U100", "?1000", "U*0", "", "S1002", "sa4*"]
+U_NAMES = ["U1000", "U1000", "u1000", "U1*", "U100?", "*", "SA4000", "u10*0", "U1000x", "U100", "?1000", "U*0", "", "S1002", "sa4*",
+           "U100[0-9]", "[uU]1000", "U[^2]000", "U1000\\", "U1[", "\\U1000", "U[]1000", "[a-z]1000"]
 
 
 def gen_u1k(rng):
@@ -837,13 +944,26 @@ def inprocess(ctx, binp, rng, n_fi, n_small, fails, mism, hist, n_src=0):
         lines.append(fi_line(*c))
         meta.append(("fi", c))
     # small ties: glob / lower / pd / sup
-    for pat, name in [("sa4*", "sa4000"), ("s?4000", "sa4000"), ("*", ""), ("", ""), ("*0", "sa4000"), ("*1", "sa4000"), ("**", "x"), ("?", ""), ("a*b*c", "aXbYbZc")]:
+    for pat, name in [("sa4*", "sa4000"), ("s?4000", "sa4000"), ("*", ""), ("", ""), ("*0", "sa4000"), ("*1", "sa4000"), ("**", "x"), ("?", ""), ("a*b*c", "aXbYbZc"),
+                      ("sa[14]000", "sa4000"), ("sa[^14]000", "sa4000"), ("sa400[0-9]", "sa4006"), ("sa[", "sa["), ("sa[]000", "sa]000"), ("sa4\\000", "sa4000"),
+                      ("sa4000\\", "sa4000"), ("*[", "x"), ("[a-]", "a"), ("s[a-c]*", "sa4000"), ("\\*", "*"), ("[*]", "*"), ("[\\]]", "]"), ("[a-a][*]", "a*"),
+                      ("[^]]", "x"), ("[[]", "["), ("a[b-a]", "ab"), ("[a]]", "a]"), ("x*[", "y")]:
         lines.append("glob %s %s" % (hexs(pat), hexs(name)))
         meta.append(("glob", (pat, name)))
     for _ in range(n_small):
         base = rng.choice(POOL).lower()
-        pat = case_variant(rng, glob_of(rng, base)).lower() if rng.chance(3, 4) else "".join(rng.choice("sa401*?") for _ in range(rng.below(7)))
+        k = rng.below(8)
+        if k < 4:
+            pat = case_variant(rng, glob_of(rng, base)).lower()
+        elif k < 6:
+            pat = glob_class_of(rng, base)
+        elif k == 6:
+            pat = "".join(rng.choice("sa401*?") for _ in range(rng.below(7)))
+        else:
+            pat = "".join(rng.choice("sa401*?[]^-\\") for _ in range(rng.below(9)))
         name = base if rng.chance(2, 3) else "".join(rng.choice("sa4010") for _ in range(rng.below(7)))
+        if rng.chance(1, 20):
+            name = "".join(rng.choice("sa401*?[]^-\\") for _ in range(rng.below(5)))
         lines.append("glob %s %s" % (hexs(pat), hexs(name)))
         meta.append(("glob", (pat, name)))
     for _ in range(n_small // 4):
@@ -918,6 +1038,8 @@ def inprocess(ctx, binp, rng, n_fi, n_small, fails, mism, hist, n_src=0):
             exp = "1" if pyglob(c[0], c[1]) else "0"
             if im == "1":
                 nontrivial.add(line)
+            if "[" in c[0] or "\\" in c[0]:
+                hist["glob:class-or-escape"] = hist.get("glob:class-or-escape", 0) + 1
             if im != exp or im != mo:
                 # filepath.Match is modelled, not part of /repo: a disagreement is a harness/model problem
                 mism.append({"kind": "glob", "pattern": c[0], "name": c[1], "impl": im, "model": mo, "python": exp})
@@ -1395,7 +1517,8 @@ def infer_print_mode(variant, sources, base_cal, real):
 def e2e_oracle(case, sources, base, dev=(), mode="display"):
     """-> kept, added, must_vanish, may_vanish (bool), u, dirs"""
     dpos, npos, non_u, u, allowed = e2e_predict_inputs(case, sources, base, mode)
-    parsed = py_parse_comment(case["text"])
+    # inside a /* */ comment the text is no comment of its own: no directive
+    parsed = py_parse_comment(case["text"]) if case.get("shape") != "in-block" else None
     dirs = [Dir(parsed[0], parsed[1], dpos, npos)] if parsed else []
     kept, added = Spec.filter(False, allowed, [p[:5] for p in non_u], dirs, dev)
     must_vanish = [p for p in u if any(Spec.u1000_suppresses(d, p[0], p[1], dev) for d in dirs)]
@@ -1653,9 +1776,12 @@ def end_to_end(ctx, sc, binp, rng, n_cases, n_shapes, all_checks, non_default, f
                                 split.setdefault((name, None), []).append(p)
                             elif uf:
                                 k, fn, pname, remapped = uf
-                                if (name, k) not in texts or not (remapped or 1 <= p[1] <= len(texts[(name, k)][fn])):
+                                if (name, k) not in texts:
                                     raise vlib.HarnessError("problem at an unknown place: %r" % (p,))
-                                col = p[2] if remapped else copies.uncol(texts[(name, k)][fn][p[1] - 1], k, p[2])
+                                # a line outside the file (a tree that mixes raw file names with adjusted
+                                # lines) is passed on as printed: the oracle judges it, the machinery does not
+                                inside = not remapped and 1 <= p[1] <= len(texts[(name, k)][fn])
+                                col = copies.uncol(texts[(name, k)][fn][p[1] - 1], k, p[2]) if inside else p[2]
                                 split.setdefault((name, k), []).append((pname, p[1], col, p[3], Copies.unname(p[4], k), p[5]))
                             else:
                                 raise vlib.HarnessError("problem in an unknown file: %r" % (p,))
@@ -1933,7 +2059,9 @@ def run(ctx):
 
     rng = vlib.SplitMix(ctx.seed).fork("C10")
     n_fi, n_small, n_e2e = (30000, 4000, 110) if ctx.quick else (200000, 20000, 2000)
-    n_shapes, n_src = (100, 1500) if ctx.quick else (1500, 20000)
+    n_shapes, n_src = (100, 1500) if ctx.quick else (1000, 10000)
+    if not ctx.quick:
+        n_e2e = 1400      # old family; together with the 1 000 shape/variant placements ≈ the old e2e budget + 20 %
     n_shapes = int(os.environ.get("VERIF_C10_SHAPES", n_shapes))
     # development knobs (defaults are the fixed case counts above)
     n_e2e = int(os.environ.get("VERIF_C10_E2E", n_e2e))
@@ -1998,9 +2126,11 @@ def run(ctx):
         "configs": CONFIGS,
     })
     ctx.assumptions += [
-        "path/filepath.Match is modelled on patterns over letters/digits/*/? only (no brackets, escapes, separators); compared with the real function on generated inputs, not verified",
+        "path/filepath.Match is modelled declaratively (terms *, ?, character classes, escapes; malformed pattern = no match; names without separators); compared with the real function on generated inputs, not verified against its loops",
         "strings.ToLower / strings.Split are modelled on ASCII; compared on generated inputs",
-        "go/ast.NewCommentMap (which node a comment is attached to) is not modelled: directives are generated on their own line directly above a statement/declaration, where the attached node starts on the next line; the end-to-end runs check this placement",
+        "go/ast.NewCommentMap is transliterated (Attach.lean) and compared, through lint.ParseDirectives, on the syntax facts of generated files; go/parser, go/scanner (//line) and go/token supply those facts and are trusted; the harness re-implements go/ast.nodeList (ast.Inspect order without comments)",
+        "hypothesis of display_same_line (positions on one raw line share adjusted file and line) is probed on the facts of every generated file; /*line*/ forms and cgo are not generated",
+        "which code line a comment is attached to is fixed by construction only for: own-line groups directly above code, comments trailing a one-line statement/declaration (not the last declaration of the file), detached comments, comments before the package clause; other placements (end of file, trailing a brace, groups containing a //line comment) are compared with the model only",
         "the U1000 graph itself is outside the model (only its ignore rule u1000Ignores is modelled); U1000 problems other than the named one may disappear, as the statement allows",
         "sorting/deduplication in printDiagnostics is outside C10 (reports are compared as sorted lists)",
         "-checks selection (filterAnalyzerNames) is C11's subject: only the forms all / -NAME / NAME are used to compute the allowed set",
@@ -2033,33 +2163,38 @@ def run(ctx):
 
 META = {
     "level": "proof",
-    "technique": "Lean 4 theorems over a transliterated model of analysis/lint.parseDirective, lintcmd.parseDirectives, "
+    "technique": "Lean 4 theorems over a transliterated model of analysis/lint.parseDirective and ParseDirectives, go/ast.NewCommentMap "
+                 "as ParseDirectives uses it, report.DisplayPosition, runner.serializeDirective, lintcmd.parseDirectives, "
                  "lineIgnore/fileIgnore.match, filterIgnored (incl. couldHaveMatched), success and the `ignores` loop of "
-                 "unused.(*graph).entry; executable correspondence in-process (verif hook lintcmd/verif_c10.go; unused.Graph "
-                 "without hook) and end-to-end metamorphic runs of the real staticcheck binary",
-    "text": "Proved for all diagnostic lists, directive lists and check selections over the model: filterIgnored_eq (the "
-            "transliterated loops compute the declarative specification), ignored_iff (a problem is ignored iff a well-formed "
-            "directive in its file, on its line unless file-wide, names its check by a case-folded glob), others_unchanged and "
-            "insert_directive / insert_directive_added (inserting a directive changes nothing but the severity of the problems it "
-            "suppresses and may add only its own malformed/useless problem), no_reason_is_error and u1000_no_reason (a directive "
-            "without a reason is a compile error and suppresses nothing, also in the U1000 graph), useless_reported_iff and "
-            "couldHaveMatched_perm (a line directive that suppressed nothing is reported iff it names an enabled check other than "
-            "U1000, whatever the order of its names), u1000_marked_iff (the U1000 graph counts the object at file:line as used "
-            "because of a directive iff the directive would suppress a U1000 problem there by the same rule), "
-            "parseDirectiveText_fields (how the comment text is read). The model is tied to the current /repo on every run: "
-            "30k generated (directives, diagnostics, enabled checks) triples through the real success/filterIgnored/"
-            "parseDirectives, generated directive lists through the real unused.Graph on a synthetic package, comment texts "
-            "through the real lint.ParseDirectives, globs through the real filepath.Match, all compared with the compiled "
-            "model and with an independent Python transcription of the statement; and end-to-end by inserting one directive "
-            "per copy of a fixed two-file package (every statement/declaration line; exact ids, globs, wrong case, other checks, "
-            "U1000, disabled checks; with and without reason; five -checks selections) and comparing the real binary's reports "
-            "with and without -show-ignored with the prediction from the directive-free report. Explored, not proved: which "
-            "syntax node a comment attaches to (go/ast comment maps), the U1000 graph beyond its ignore rule (what becomes used "
-            "through an ignored object), the analyzers that produce the problems, sorting/deduplication of the output.",
-    "note": "Trusted: Lean kernel (axioms propext/Classical.choice/Quot.sound), compiled c10driver, harness/cmd/c10filter, the "
-            "verif hook lintcmd/verif_c10.go (wrappers only), the Python oracle in checks/c10.py; filepath.Match (letters, digits, "
-            "*, ? only), strings.ToLower/Split on ASCII and go/ast.NewCommentMap are modelled or assumed and compared on generated "
-            "inputs. Three defects found and fixed in /repo (findings.d/C10.txt): U1000 order dependence of the useless-directive "
-            "report, U1000 directives without a reason still honoured, U1000 names matched exactly instead of as case-folded globs.",
+                 "unused.(*graph).entry; executable correspondence in-process (verif hooks lintcmd/verif_c10.go and "
+                 "lintcmd/runner/verif_c10.go; unused.Graph without hook) and end-to-end metamorphic runs of the real staticcheck binary",
+    "text": "Proved for all diagnostic lists, directive lists and check selections over the model: filterIgnored_eq, ignored_iff (a "
+            "problem is ignored iff a well-formed directive in its file, on its line unless file-wide, names its check by a "
+            "case-folded glob), others_unchanged, insert_directive / insert_directive_added, no_reason_is_error, u1000_no_reason, "
+            "useless_reported_iff, couldHaveMatched_perm, u1000_marked_iff, parseDirectiveText_fields. Proved for all comment maps / "
+            "node lists / comment groups: mem_parseCM_iff, directive_at_any_index, parseCM_regroup, parseCM_inert (every `//lint:` line "
+            "of every comment group is exactly one directive whatever its index; how lines are grouped is irrelevant; other comments "
+            "are inert), commentMap_groups (every group is associated once), commentMap_above (a group on its own lines directly above "
+            "a node is associated with that node, proved over the whole NewCommentMap loop), assocOf_above/_trailing/_detached and "
+            "popStack_outermost (the decision for the other placements), display_same_line and mem_pipeline_iff (problems and directive "
+            "nodes go through the same DisplayPosition), above_directive_suppresses and suppressed_only_by_attached (a line directive "
+            "suppresses exactly the problems printed on the line of the code it is attached to, in plain and //line-remapped files). "
+            "The model is tied to the current /repo on every run: 30k generated (directives, diagnostics, enabled checks) triples "
+            "through the real success/filterIgnored/parseDirectives, directive lists through the real unused.Graph, 4k globs "
+            "(classes, escapes, malformed) through filepath.Match, 1.5k generated source files with comment groups at every position "
+            "and //line directives through the real lint.ParseDirectives + runner.serializeDirective against the model fed with the "
+            "syntax facts of the same parse, all also judged by an independent Python transcription of the statement; and end-to-end by "
+            "placing one directive per copy of a fixed two-file package in 11 shapes (own line, first/middle/last line of a comment "
+            "group, end of a doc comment, trailing, detached, inside a block comment, before the package clause, after the last "
+            "declaration) x 6 //line variants x 5 -checks selections and comparing the real binary's reports with and without "
+            "-show-ignored with the prediction from the directive-free report. Explored, not proved: loop-level attachment of trailing "
+            "and detached comments (decision-level theorems only), the U1000 graph beyond its ignore rule, the analyzers that produce "
+            "the problems, go/scanner's reading of //line comments, sorting/deduplication of the output.",
+    "note": "Trusted: Lean kernel (axioms propext/Classical.choice/Quot.sound), compiled c10driver, harness/cmd/c10filter (incl. its "
+            "copy of go/ast.nodeList), the two verif hooks (wrappers only), the Python oracle in checks/c10.py, go/parser, go/scanner, "
+            "go/token; filepath.Match and strings.ToLower/Split on ASCII are modelled declaratively and compared on generated inputs. "
+            "Three defects found and fixed in /repo (findings.d/C10.txt): U1000 order dependence of the useless-directive report, U1000 "
+            "directives without a reason still honoured, U1000 names matched exactly instead of as case-folded globs. Seeded changes "
+            "C10-1-1/2/3 are reported with concrete failing packages.",
     "design_ref": "DESIGN.md section 5, C10; section 6 row 8",
 }
